@@ -305,6 +305,16 @@ class Run:
     which another step may have updated in the meantime after noticing the same change.
     """
 
+    launched_shell: bool | None = attrs.field(init=False, default=None)
+    """The shell flag the command was started with, `None` as long as it was not started."""
+
+    launched_env_overrides: dict[str, str] | None = attrs.field(init=False, default=None)
+    """The environment overrides the command was started with.
+
+    Both are part of the step hash. A step that is declared again while it runs can get
+    other values in the workflow, which say nothing about the command that is running.
+    """
+
     out_missing: list[str] = attrs.field(init=False, factory=list)
     """List of expected output files that were not created."""
 
